@@ -28,6 +28,7 @@ pub fn dispatch(name: &str) -> bool {
         "h_melda::smoke" => h_melda::smoke(),
         "h_c18::independent" => h_c18::independent(),
         "h_c18::converge" => h_c18::converge(),
+        "h_c18::concurrent_creations" => h_c18::concurrent_creations(),
         "h_c11::content_addressed" => h_c11::content_addressed(),
         "h_c11::adapter_contract" => h_c11::adapter_contract(),
         "h_c09::commit_faults" => h_c09::commit_faults(),
